@@ -269,8 +269,7 @@ theorem string_file_roundtrip (pr : Char → Bool) (name : Str) (hn : GoodName n
 
 /-- String, StringSurroundedBySpaces, StringWithSpaceOnRight: whatever `setValue` stores reloads to
 itself (`set(str(node))` of a fresh node of the same class), for every string.
-NormalizedString is not covered by a theorem (its `serialize` wraps lines with `textwrap`; see the
-known finding C15-normalized-wrap): correspondence only. -/
+NormalizedString (whose `serialize` wraps lines) is treated separately. -/
 theorem string_variants_roundtrip (k : StrClass) (hk : k ≠ .normalized) (pr : Char → Bool) (v : Str) :
     k.set pr (strStr pr (k.setValue v)) = .ok (k.setValue v) := by
   unfold StrClass.set
@@ -291,10 +290,11 @@ Boolean, Integer), names are reader-safe and case-insensitively distinct, channe
 no network name ends in a backslash, children are in `_added.sort()` order.  The new cache holds
 exactly the saved texts. -/
 theorem save_load_roundtrip (pr : Char → Bool) (c : ClassId) (dflt : Val) (K : Kind) (B : Str)
-    (t : TreeSpec Val) (cache0 : Cache) (hK : K.chanV = true) (h : Storable pr c dflt B t) :
+    (t : TreeSpec Val) (cache0 : Cache) (hK : K.chanV = true) (hc : c ≠ .str .normalized)
+    (h : Storable pr c dflt B t) :
     saveLoad pr c dflt K B ⟨t.build, cache0⟩ =
       .up ⟨t.build, (t.entries B).map fun kv => (kv.1, c.show pr kv.2)⟩ :=
-  saveLoad_normal_aux header_table_ok pr c dflt K B t cache0 hK h
+  saveLoad_normal_aux header_table_ok pr c dflt K B t cache0 hK hc h
 
 /-- `RT` for the String class: every string -/
 theorem rt_string (pr : Char → Bool) (dflt : Val) (x : Str) : RT (ClassId.cls pr (.str .plain) dflt) (.s x) := by
@@ -386,7 +386,8 @@ theorem source_constants_ok :
     Gen.Registry.toggleWord = "toggle".toList ∧
     Gen.Registry.nwEdgeBlanks = [' ', '\n', '\t', '\r'] ∧ Gen.Registry.nwNewlineRe = "[\r\n]+" ∧
     Gen.Registry.nwSplits = [['\t'], [' ']] ∧
-    Gen.Registry.wrapWidth = 76 ∧ Gen.Registry.wrapPrefixExtra = 2 ∧
+    Gen.Registry.wrapWidth = 76 ∧ Gen.Registry.wrapPrefixExtra = 2 ∧ Gen.Registry.wrapMinWidth = 1 ∧
+    Gen.Registry.wrapBreakLongWords = false ∧ Gen.Registry.wrapBreakOnHyphens = false ∧
     Gen.Registry.needsQuotingSrc =
       "any([x not in self._printable for x in s]) and s.strip() != s or (len(s) > 0 and s[0] == s[-1] and (s[0] in '\\'\"'))" := by
   decide +kernel
